@@ -1,6 +1,8 @@
 package sim
 
 import (
+	"fmt"
+
 	"gosim/hb"
 	"gosim/rng"
 )
@@ -59,6 +61,12 @@ func genC02(seed uint64, r *rng.Rand) *Plan {
 				// headers, multis) must not mix up later callers
 				o = Op{Kind: "get", Table: ts.Name, Key: nil, Nonce: g.Nonce(), SkipBatch: g.R.Chance(0.6)}
 			}
+			if g.R.Chance(0.12) && len(o.Key) > 0 {
+				// the caller gives up while its call sits in a batch that has not been
+				// flushed: the multi is sent without it (and, if it was alone, without
+				// its region); the other callers' results must still be their own
+				o.Ctx = CtxSpec{Kind: "timeout", MS: g.R.Range(1, 25)}
+			}
 			ops = append(ops, o)
 		}
 		p.Tasks = append(p.Tasks, Task{Ops: ops})
@@ -71,6 +79,30 @@ func genC02(seed uint64, r *rng.Rand) *Plan {
 			p.Rules = append(p.Rules, &hb.Rule{Class: hb.AppClasses[g.R.Intn(len(hb.AppClasses)-1)], Msg: "injected",
 				Count: g.R.Range(1, 3), Server: -1, Level: lv, Nonce: uint64(g.R.Range(1, 30))})
 		}
+	}
+	// third configuration: one regionserver, a long flush interval, callers that
+	// give up before the flush, and whole-region exceptions: the multi leaves out
+	// the calls (and regions) of the callers that are gone, and a region's
+	// exception must still reach exactly the callers of that region
+	if g.R.Chance(0.08) {
+		p.Layout.Servers, p.Layout.Meta, p.Layout.Master = 1, 0, 0
+		ts.First = 0
+		p.Client.QueueSize, p.Client.FlushMS = 100, 20
+		for t := range p.Tasks {
+			for i := range p.Tasks[t].Ops {
+				o := &p.Tasks[t].Ops[i]
+				if o.Kind != "batch" && len(o.Key) > 0 {
+					o.SkipBatch = false
+					if g.R.Chance(0.4) {
+						o.Ctx = CtxSpec{Kind: "timeout", MS: g.R.Range(1, 15)}
+					} else {
+						o.Ctx = CtxSpec{}
+					}
+				}
+			}
+		}
+		p.Rules = append(p.Rules, &hb.Rule{Class: hb.AppClasses[g.R.Intn(len(hb.AppClasses)-1)], Msg: "injected", Count: g.R.Range(1, 3), Server: -1, Level: "region"})
+		return p
 	}
 	// second configuration: connection loss
 	if g.R.Chance(0.25) {
@@ -86,6 +118,7 @@ func init() {
 			vs := w.AttributionCheck("C02")
 			if len(w.Plan.Faults) == 0 && w.Env.StopErr == nil {
 				vs = append(vs, w.AllReturned("C02", "completion")...)
+				vs = append(vs, w.appErrorsDelivered("C02")...)
 			}
 			return vs
 		},
@@ -116,4 +149,51 @@ func (w *World) multiMixed() bool {
 		}
 	}
 	return false
+}
+
+// appErrorsDelivered: in a run in which no response can get lost, an exception
+// outside the retryable classes that a server sent for a call (for the call, for
+// its whole region action, or for the whole request) is what its caller gets -
+// unless the caller's context had ended.
+func (w *World) appErrorsDelivered(prop string) []Violation {
+	var vs []Violation
+	byNonce := execsByNonce(w.Env.C)
+	isApp := func(cls string) bool {
+		for _, c := range hb.AppClasses[:len(hb.AppClasses)-1] {
+			if c == cls {
+				return true
+			}
+		}
+		return false
+	}
+	check := func(r *OpRec, op *Op, s *Slot, what string) {
+		if op.Ctx.Kind != "" || op.Ctx.Pre || op.Key == nil {
+			return
+		}
+		for _, ex := range byNonce[op.Nonce] {
+			if isApp(ex.Err) && s.ErrClass != "app" {
+				vs = append(vs, w.viol(prop, "app-error-lost", "%s (nonce %d): execution %d answered it with %s (level %s), the caller got %q", what, op.Nonce, ex.Seq, ex.Err, ex.ErrLevel, firstLine(s.ErrStr)))
+				return
+			}
+		}
+	}
+	for _, t := range w.Recs {
+		for _, r := range t {
+			if !r.Done {
+				continue
+			}
+			switch r.Op.Kind {
+			case "get", "put", "del", "app", "inc", "cas":
+				check(r, r.Op, &r.Slot, fmt.Sprintf("task %d op %d (%s)", r.Task, r.Idx, r.Op.Kind))
+			case "batch":
+				if batchInvalid(r.Op) != "" || r.Op.Ctx.Kind != "" {
+					continue
+				}
+				for i := range r.Slots {
+					check(r, &r.Op.Batch[i], &r.Slots[i], fmt.Sprintf("task %d op %d batch slot %d", r.Task, r.Idx, i))
+				}
+			}
+		}
+	}
+	return vs
 }
